@@ -132,7 +132,9 @@ def code_dependencies_outputs(code: Sequence[ast.AST]) -> Tuple[Set[str], Set[st
                 elif isinstance(child.ctx, ast.Store):
                     maybe_created_names.add(child.id)
 
-            node_needed -= created_names
+            # Only names that have surely been created satisfy a need (created_names may by now
+            # refer to the names that have maybe been created)
+            node_needed -= created_names_original
             created_names.update(node_created)
             maybe_created_names.update(created_names)
             required_names.update(node_needed)
@@ -152,7 +154,7 @@ def code_dependencies_outputs(code: Sequence[ast.AST]) -> Tuple[Set[str], Set[st
 
         node_created = set.intersection(*created) if created else set()
         node_needed = set.union(*needed) if needed else set()
-        node_needed -= created_names
+        node_needed -= created_names_original
         node_needed -= temp_created
         node_needed |= temp_needed
         created_names.update(node_created)
